@@ -316,7 +316,9 @@ def run_job(job, root, tmp):
             if r["status"] == "FAILURE":
                 res["failed"].append(ent)
             elif r["status"] != "SUCCESS":
-                raise Undecided("property %s has status %s" % (r["property"], r["status"]))
+                res.setdefault("unknown", []).append(ent)
+        if res.get("unknown") and not res["failed"]:
+            raise Undecided("property %s has status UNKNOWN" % res["unknown"][0]["id"])
         want = job.get("canaries", 1)
         if canaries < want:
             # a failed unwinding assertion or real failure upstream may mask the canary; only
@@ -379,18 +381,20 @@ def _flatten(val, path, out):
 
 
 def extract_inputs(trace):
-    """last whole-variable assignment to each in_* variable -> list of (lvalue, unsigned)"""
-    last = {}
+    """last assignment to every scalar leaf of each in_* variable -> {var: [(lvalue, unsigned)]}"""
+    leaves = {}
     for s in trace:
-        if s.get("stepType") == "assignment":
-            lhs = s.get("lhs", "")
-            if re.fullmatch(r"in_\w+", lhs) and "value" in s:
-                last[lhs] = s["value"]
+        if s.get("stepType") == "assignment" and "value" in s:
+            lhs = re.sub(r"\[(\d+)[a-zA-Z]*\]", r"[\1]", s.get("lhs", ""))
+            if re.match(r"in_\w+", lhs):
+                acc = []
+                _flatten(s["value"], lhs, acc)
+                for lv, v in acc:
+                    leaves[lv] = v
     flat = {}
-    for var, val in last.items():
-        acc = []
-        _flatten(val, var, acc)
-        flat[var] = acc
+    for lv, v in leaves.items():
+        var = re.match(r"in_\w+", lv).group(0)
+        flat.setdefault(var, []).append((lv, v))
     return flat
 
 
